@@ -335,6 +335,8 @@ func Main() {
 		// A case during which a time anomaly was flagged (virtual time moved where
 		// no wait was scripted) is re-executed; if it stays anomalous it is
 		// recorded as inconclusive and its observations are discarded.
+		var prevSigs []string
+		sameSigs := true
 		for attempt := 1; ; attempt++ {
 			co := newOut()
 			co.curCase = cv
@@ -346,12 +348,29 @@ func Main() {
 				break
 			}
 			out.Anomalies++
+			// signatures of this attempt
+			var sigs []string
+			for k := range co.ViolCount {
+				sigs = append(sigs, k)
+			}
+			sort.Strings(sigs)
+			if attempt > 1 && strings.Join(sigs, "\x00") != strings.Join(prevSigs, "\x00") {
+				sameSigs = false
+			}
+			prevSigs = sigs
 			if attempt >= 3 {
 				anomalyMu.Lock()
 				why := fmt.Sprint(anomalyWhy)
 				anomalyWhy = nil
 				anomalyMu.Unlock()
-				out.Inconclusive = append(out.Inconclusive, fmt.Sprintf("case %s: time anomaly on %d attempts, observations discarded (%s)", c, attempt, why))
+				if sameSigs && len(sigs) > 0 {
+					// the same violation on every attempt is not a scheduling accident of the virtual clock:
+					// it is reported (the unexpected virtual delay is part of the symptom)
+					co.Notes = append(co.Notes, fmt.Sprintf("case %s: virtual time moved unexpectedly on all %d attempts with identical violations (%s)", c, attempt, why))
+					out.merge(co)
+				} else {
+					out.Inconclusive = append(out.Inconclusive, fmt.Sprintf("case %s: time anomaly on %d attempts, observations discarded (%s)", c, attempt, why))
+				}
 				break
 			}
 		}
